@@ -20,6 +20,7 @@ import (
 
 	"github.com/scrapli/scrapligo/driver/generic"
 	"github.com/scrapli/scrapligo/driver/netconf"
+	"github.com/scrapli/scrapligo/driver/network"
 	"github.com/scrapli/scrapligo/driver/opoptions"
 	"github.com/scrapli/scrapligo/driver/options"
 	"github.com/scrapli/scrapligo/transport"
@@ -34,6 +35,8 @@ type c07Spec struct {
 	Twice    bool
 	HasOp    bool
 	CloseErr bool     // the transport's Close() returns an error (sim.CloseErr)
+	Net      bool     // (NC false) network driver instead of generic driver
+	Alive    int      // IsAlive(): 0 alive until closed locally, 1 false once a Read returned EOF/error, 2 also false as soon as the peer hung up (sim.PeerAlive)
 	Natural  string   // non-empty: natural-timing scenario name, no schedule control
 	Sched    []string // tokens R K O N W S Ed Ee Ex
 }
@@ -53,7 +56,7 @@ func (s c07Spec) String() string {
 	if nat == "" {
 		nat = "-"
 	}
-	return fmt.Sprintf("nc=%s mode=%d twice=%s op=%s cerr=%s nat=%s sched=%s", b(s.NC), s.Mode, b(s.Twice), b(s.HasOp), b(s.CloseErr), nat, sch)
+	return fmt.Sprintf("nc=%s net=%s mode=%d twice=%s op=%s cerr=%s alive=%d nat=%s sched=%s", b(s.NC), b(s.Net), s.Mode, b(s.Twice), b(s.HasOp), b(s.CloseErr), s.Alive, nat, sch)
 }
 
 func parseC07Spec(line string) (c07Spec, error) {
@@ -74,6 +77,10 @@ func parseC07Spec(line string) (c07Spec, error) {
 			s.HasOp = kv[1] == "1"
 		case "cerr":
 			s.CloseErr = kv[1] == "1"
+		case "net":
+			s.Net = kv[1] == "1"
+		case "alive":
+			s.Alive, _ = strconv.Atoi(kv[1])
 		case "nat":
 			if kv[1] != "-" {
 				s.Natural = kv[1]
@@ -98,6 +105,7 @@ type c07Final struct {
 	Init        map[string]string `json:"init"`
 	CloseRet    []bool            `json:"close_returned"`
 	CloseErr    []string          `json:"close_err"`
+	CallsAtRet  []int             `json:"impl_close_calls_when_close_returned"`
 	CloseCalls  int               `json:"close_calls"`
 	Alive       []string          `json:"alive"`
 	OpStarted   bool              `json:"op_started"`
@@ -307,8 +315,11 @@ func runC07Child(line string) {
 		s.CloseUnblocks = spec.Mode
 		s.Start()
 		var impl transport.Implementation = s
+		if spec.Alive > 0 {
+			impl = sim.WithPeerAlive(impl, s.Pipe, spec.Alive == 2)
+		}
 		if spec.CloseErr {
-			impl = sim.WithCloseErr(s, nil)
+			impl = sim.WithCloseErr(impl, nil)
 		}
 		d, err := netconf.NewDriver("h", options.WithCustomTransport(impl), options.WithAuthBypass(),
 			options.WithTimeoutOps(openTimeout), options.WithReadDelay(50*time.Microsecond))
@@ -330,21 +341,39 @@ func runC07Child(line string) {
 		dev.CloseUnblocks = spec.Mode
 		dev.Start()
 		var impl transport.Implementation = dev
+		if spec.Alive > 0 {
+			impl = sim.WithPeerAlive(impl, dev.Pipe, spec.Alive == 2)
+		}
 		if spec.CloseErr {
-			impl = sim.WithCloseErr(dev, nil)
+			impl = sim.WithCloseErr(impl, nil)
 		}
-		d, err := generic.NewDriver("h", options.WithCustomTransport(impl), options.WithAuthBypass(),
-			options.WithTimeoutOps(openTimeout), options.WithReadDelay(50*time.Microsecond))
-		if err != nil {
-			fmt.Println("SETUP-ERROR", err)
-			os.Exit(5)
+		var d *generic.Driver
+		var openFn func() error
+		if spec.Net {
+			nd, err := network.NewDriver("h", options.WithCustomTransport(impl), options.WithAuthBypass(),
+				options.WithTimeoutOps(openTimeout), options.WithReadDelay(50*time.Microsecond),
+				options.WithPrivilegeLevels(map[string]*network.PrivilegeLevel{
+					"privilege-exec": {Name: "privilege-exec", Pattern: `(?im)^[\w.\-@/:]{1,63}#\s?$`}}),
+				options.WithDefaultDesiredPriv("privilege-exec"))
+			if err != nil {
+				fmt.Println("SETUP-ERROR", err)
+				os.Exit(5)
+			}
+			d, openFn, closeFn = nd.Driver, nd.Open, nd.Close
+		} else {
+			gd, err := generic.NewDriver("h", options.WithCustomTransport(impl), options.WithAuthBypass(),
+				options.WithTimeoutOps(openTimeout), options.WithReadDelay(50*time.Microsecond))
+			if err != nil {
+				fmt.Println("SETUP-ERROR", err)
+				os.Exit(5)
+			}
+			d, openFn, closeFn = gd, gd.Open, gd.Close
 		}
-		if err := d.Open(); err != nil {
+		if err := openFn(); err != nil {
 			fmt.Println("SETUP-ERROR open", err)
 			os.Exit(5)
 		}
 		pipe = dev.Pipe
-		closeFn = d.Close
 		opFn = func() {
 			if _, err := d.Channel.Read(); err == nil {
 				_, _ = d.Channel.Read()
@@ -365,6 +394,7 @@ func runC07Child(line string) {
 
 	closeRet := make([]bool, 2)
 	closeErr := make([]string, 2)
+	callsAtRet := make([]int, 2)
 	var cmu sync.Mutex
 	closes := 0
 	startClose := func() {
@@ -380,8 +410,11 @@ func runC07Child(line string) {
 		p.state = "running"
 		go func() {
 			err := closeFn()
+			calls := 0
+			pipe.Snapshot(func() { calls = pipe.CloseCalls })
 			cmu.Lock()
 			closeRet[i] = true
+			callsAtRet[i] = calls
 			if err != nil {
 				closeErr[i] = err.Error()
 			}
@@ -624,6 +657,7 @@ func runC07Child(line string) {
 	}
 	fin.CloseRet = append([]bool{}, closeRet[:n]...)
 	fin.CloseErr = append([]string{}, closeErr[:n]...)
+	fin.CallsAtRet = append([]int{}, callsAtRet[:n]...)
 	cmu.Unlock()
 	pipe.Snapshot(func() { fin.CloseCalls = pipe.CloseCalls })
 	fin.Alive = c07LibGoroutines(c07Stacks())
